@@ -8,6 +8,7 @@ import (
 	"fmt"
 	"os"
 	"path/filepath"
+	"sort"
 	"strings"
 	"testing"
 
@@ -137,6 +138,31 @@ func c04AProp(t *rapid.T) {
 		text := string(y)
 		if rapid.IntRange(0, 5).Draw(t, "comment") == 0 {
 			text = "# comment\n" + text
+		}
+		// one file in four holds a second YAML document: the documents of one file are layered in order like files
+		// (a table named again merges key by key; the file as a whole is then layered over the earlier sources)
+		if rapid.IntRange(0, 3).Draw(t, "secondDocument") == 0 {
+			tree2 := c04GenTree(t, 2, fmt.Sprintf("f%dd2", i))
+			if rapid.Bool().Draw(t, "secondDocumentRepeatsATable") {
+				for k, v := range tree {
+					if vm, ok := v.(map[string]interface{}); ok && len(vm) > 0 {
+						tree2[k] = map[string]interface{}{"added-by-second-document": "x"}
+						break
+					}
+				}
+			}
+			y2, _ := yaml.Marshal(tree2)
+			text += "---\n" + string(y2)
+			// (the documents of a file are merged with each other first, then the file is layered over what came before)
+			ref = refLayer(refLayer(tree2, deepCopyVal(tree).(map[string]interface{})), ref)
+			for k := range tree2 {
+				touch(k)
+			}
+			c.Files = append(c.Files, text)
+			for k := range tree {
+				touch(k)
+			}
+			continue
 		}
 		c.Files = append(c.Files, text)
 		ref = refLayer(tree, ref)
@@ -479,11 +505,90 @@ func c04CProp(t *rapid.T) {
 	// user values reuse the same shape generator through a throw-away chart
 	c.User = c04GenChartTree(t, clash).Defaults
 	lbls := []string{fmt.Sprintf("subcharts:%d", c04CountDeps(c.Root))}
+	// a user null on a global key that only charts in different branches (never an ancestor and its descendant) hold a
+	// default for: it flows down and removes that default wherever it is (nulls on global keys that an ancestor defines
+	// as well stay outside the judged class, see assumptions)
+	if !clash && rapid.IntRange(0, 2).Draw(t, "userNullOnGlobalKey") == 0 {
+		if k := c04LonelyGlobalKey(t, c.Root); k != "" {
+			ug, _ := c.User["global"].(map[string]interface{})
+			if ug == nil {
+				ug = map[string]interface{}{}
+			}
+			ug[k] = nil
+			c.User["global"] = ug
+			lbls = append(lbls, "user-null-on-a-subchart-global-default")
+		}
+	}
 	if clash {
 		lbls = append(lbls, "scalar-vs-table-clash-class")
 	}
 	nontrivial := c04CJudge(t, c, clash)
 	evid.Case(lbls, jsonOf(c), nontrivial && !clash, c)
+}
+
+// c04LonelyGlobalKey picks a scalar key that some non-root chart holds under global in its defaults such that no chart
+// and one of its descendants both hold it ("" if there is none).
+func c04LonelyGlobalKey(t *rapid.T, root *refChart) string {
+	holders := map[string][][]string{} // key -> paths (chart names from the root) of the charts defining it
+	var walk func(c *refChart, path []string)
+	walk = func(c *refChart, path []string) {
+		p := append(append([]string{}, path...), c.Name)
+		if g, ok := c.Defaults["global"].(map[string]interface{}); ok {
+			for k, v := range g {
+				if _, isTable := v.(map[string]interface{}); !isTable && v != nil {
+					holders[k] = append(holders[k], p)
+				}
+			}
+		}
+		// a global table inside the chart's section for a dependency counts as a definition at that dependency (and
+		// at every deeper section)
+		var sections func(sec map[string]interface{}, sp []string)
+		sections = func(sec map[string]interface{}, sp []string) {
+			if g, ok := sec["global"].(map[string]interface{}); ok {
+				for k := range g {
+					holders[k] = append(holders[k], sp)
+				}
+			}
+			for k, v := range sec {
+				if vm, ok := v.(map[string]interface{}); ok && k != "global" {
+					sections(vm, append(append([]string{}, sp...), k))
+				}
+			}
+		}
+		for k, v := range c.Defaults {
+			if vm, ok := v.(map[string]interface{}); ok && k != "global" {
+				sections(vm, append(append([]string{}, p...), k))
+			}
+		}
+		for _, d := range c.Deps {
+			walk(d, p)
+		}
+	}
+	walk(root, nil)
+	var cands []string
+	for k, ps := range holders {
+		ok := false
+		for _, p := range ps {
+			if len(p) > 1 {
+				ok = true
+			}
+		}
+		for i := range ps {
+			for j := range ps {
+				if i != j && len(ps[i]) < len(ps[j]) && strings.Join(ps[j][:len(ps[i])], "/") == strings.Join(ps[i], "/") {
+					ok = false // an ancestor and its descendant both define it
+				}
+			}
+		}
+		if ok {
+			cands = append(cands, k)
+		}
+	}
+	if len(cands) == 0 {
+		return ""
+	}
+	sort.Strings(cands)
+	return rapid.SampledFrom(cands).Draw(t, "lonelyGlobalKey")
 }
 
 func c04CountDeps(c *refChart) int {
@@ -591,7 +696,7 @@ func c04Scribble(m map[string]interface{}) {
 
 func TestC04C(t *testing.T) {
 	evid.Extra("rule", "C04C: chart trees of up to three levels of subcharts (root -> s1 -> s2 -> s3, root -> s2) with generated defaults at every level (scalars, lists, nulls, nested tables, subchart sections and global tables at every level) and generated user values; ToRenderValues(...).Values must equal, leaf path by leaf path (null = absent = empty table), an independent reference: user > parent's section > chart's own values.yaml, tables merge, everything else replaces, a null removes the default, global tables flow down with the ancestor winning. Then immutability: the caller's map and every chart's stored defaults are unchanged, also after every map of the result has been overwritten, and a second coalesce of the same chart object gives the same values. One case in ten draws scalar-vs-table clashes for sections/global: counted, not judged. Non-trivial = a path defined by both user values and defaults, or at least one subchart; distinct by (chart tree, user values).")
-	evid.Extra("assumptions", []string{"nulls inside global tables and scalar-vs-table clashes of subchart sections/global are excluded from judgement (Helm documents a warning-and-skip there)"})
+	evid.Extra("assumptions", []string{"scalar-vs-table clashes of subchart sections/global are excluded from judgement (Helm documents a warning-and-skip there); nulls inside global tables are judged only as user nulls on a key that no chart and one of its descendants both define (a null is consumed by the first chart that holds a default for the key; whether it should travel further is not something the statement fixes)"})
 	rapid.Check(t, c04CProp)
 }
 
